@@ -15,6 +15,8 @@ PY
 rc=$?
 if [ $rc -ne 0 ]; then git checkout -- .; exit $rc; fi
 if ! cargo build --offline -q 2>/dev/null; then echo "MUTANT DOES NOT COMPILE"; git checkout -- .; exit 4; fi
+cp /verif/evidence/$ID.json /tmp/evidence_$ID.bak 2>/dev/null
 out=$(cd /verif && ./check "$ID" quick 2>&1); rc=$?
+cp /tmp/evidence_$ID.bak /verif/evidence/$ID.json 2>/dev/null; rm -f /tmp/evidence_$ID.bak
 git checkout -- .
 if [ $rc -eq 1 ]; then echo "CAUGHT: $(echo "$out" | grep -m1 'FAILURE sig' )"; elif [ $rc -eq 0 ]; then echo "MISSED"; else echo "INCONCLUSIVE rc=$rc: $(echo "$out" | tail -3)"; fi
